@@ -62,7 +62,11 @@ def make_symbol(item: dict, comp: dict | None, name: str):
 
 def place_fn(rot: int = 0, shift=(0.0, 0.0), scale: float = 1.0):
     def pt(p):
-        x, y = PITCH * scale * (p % 3), PITCH * scale * (p // 3)
+        if p >= 100:          # integer pairs encoded as 100*(y+50) + (x+50) (declarative programs)
+            gx, gy = (p % 100) - 50, (p // 100) - 50
+        else:
+            gx, gy = p % 3, p // 3
+        x, y = PITCH * scale * gx, PITCH * scale * gy
         for _ in range(rot % 4):
             x, y = -y, x
         return (x + shift[0], y + shift[1])
